@@ -48,16 +48,25 @@ const (
 
 func migrateInvoiceRates(inv *bill.Invoice) {
 	for _, line := range inv.Lines {
+		if line == nil {
+			continue
+		}
 		for _, tax := range line.Taxes {
 			migrateInvoiceTaxCombo(tax)
 		}
 	}
 	for _, line := range inv.Discounts {
+		if line == nil {
+			continue
+		}
 		for _, tax := range line.Taxes {
 			migrateInvoiceTaxCombo(tax)
 		}
 	}
 	for _, line := range inv.Charges {
+		if line == nil {
+			continue
+		}
 		for _, tax := range line.Taxes {
 			migrateInvoiceTaxCombo(tax)
 		}
@@ -67,6 +76,9 @@ func migrateInvoiceRates(inv *bill.Invoice) {
 const oldExtKeyExemptionCode cbc.Key = "pt-exemption-code"
 
 func migrateInvoiceTaxCombo(tc *tax.Combo) {
+	if tc == nil {
+		return
+	}
 	if tc.Rate.HasPrefix(TaxRateExempt) && tc.Rate != TaxRateExempt {
 		for _, m := range taxRateVATExemptMigrationMap {
 			if m.Key == tc.Rate {
